@@ -1,5 +1,8 @@
 import RJson.Model.Ragel
-import RJson.Spec.Scanner
+import RJson.Model.Api
+import RJson.Model.FP
+import RJson.Model.ValueReader
+import RJson.Spec.Values
 import RJson.Gen.ReadNull
 import RJson.Gen.ReadBool
 import RJson.Gen.SkipValue
@@ -93,12 +96,180 @@ def runMachine (name data stack script dst : String) : String :=
   match machineByName name, hexToBytes data, parseStack stack, parseScript script, hexToBytes dst with
   | some M, some d, some st, some sc, some ds =>
     let hs : HS := { script := sc, idx := 0, total := d.size, trace := #[] }
-    resultStr (runA M d scriptHandler garbageHavoc st ds hs)
+    resultStr (runA M d scriptHandler garbageHavoc st ds hs).1
   | _, _, _, _, _ => "bad-op"
 
 def optNat : Option Nat → String
   | some n => s!"ok {n}"
   | none => "err"
+
+
+/-! API-level operations -/
+open RJson.Model in
+def fmtR {α} (r : R α) (sh : α → String) : String :=
+  if r.panicked then "panic"
+  else match r.err with
+  | none => s!"ok {sh r.val} {r.p}"
+  | some e => s!"err:{e.name} {r.p}"
+
+open RJson.Model in
+def fmtDecode {α} (r : R α) (sh : α → String) : String :=
+  if r.panicked then "panic"
+  else match r.err with
+  | none => s!"ok {sh r.val} {r.p}"
+  | some e => s!"err:{e.name} {sh r.val} {r.p}"
+
+def hexOrDash (b : Bytes) : String := if b.size == 0 then "-" else bytesToHex b
+
+def tokStr : UInt8 × Nat × Option Model.TokErr → String
+  | (t, p, none) => s!"ok {t.toNat} {p}"
+  | (_, p, some .eof) => s!"eof {p}"
+  | (t, p, some .noValidToken) => s!"invalid {t.toNat} {p}"
+
+def tokTypeStr : Nat × Nat × Option Model.TokErr → String
+  | (t, p, none) => s!"ok {t} {p}"
+  | (_, p, some .eof) => s!"eof {p}"
+  | (t, p, some .noValidToken) => s!"invalid {t} {p}"
+
+def boolStr (b : Bool) : String := if b then "true" else "false"
+
+open RJson.Model in
+def apiOp (op : String) (args : List String) : Option String :=
+  match op, args with
+  | "Valid", [d, st] => do
+    let d ← hexToBytes d; let st ← parseStack st
+    pure (match (valid d st).1 with | some b => boolStr b | none => "panic")
+  | "SkipValue", [d, st] => do
+    let d ← hexToBytes d; let st ← parseStack st
+    pure (fmtR (skipValue d st).1 (fun _ => "-"))
+  | "SkipValueFast", [d, st] => do
+    let d ← hexToBytes d; let st ← parseStack st
+    pure (fmtR (skipValueFast d st).1 (fun _ => "-"))
+  | "NextToken", [d] => do let d ← hexToBytes d; pure (tokStr (nextToken d))
+  | "NextTokenType", [d] => do let d ← hexToBytes d; pure (tokTypeStr (nextTokenType d))
+  | "ReadUint64", [d] => do let d ← hexToBytes d; pure (fmtR (readUint64 d) (fun v => toString v.toNat))
+  | "ReadUint32", [d] => do let d ← hexToBytes d; pure (fmtR (readUint32 d) (fun v => toString v.toNat))
+  | "ReadUint", [d] => do let d ← hexToBytes d; pure (fmtR (readUint d) (fun v => toString v.toNat))
+  | "ReadInt64", [d] => do let d ← hexToBytes d; pure (fmtR (readInt64 d) toString)
+  | "ReadInt32", [d] => do let d ← hexToBytes d; pure (fmtR (readInt32 d) toString)
+  | "ReadInt", [d] => do let d ← hexToBytes d; pure (fmtR (readInt d) toString)
+  | "ReadFloat64", [d] => do let d ← hexToBytes d; pure (fmtR (readFloat64 d) toString)
+  | "ReadNull", [d] => do let d ← hexToBytes d; pure (fmtR (readNull d) (fun _ => "-"))
+  | "ReadBool", [d] => do let d ← hexToBytes d; pure (fmtR (readBool d) boolStr)
+  | "ReadStringBytes", [d, b] => do
+    let d ← hexToBytes d; let b ← hexToBytes b
+    let r := readStringBytes d b
+    pure (if r.panicked then "panic" else match r.err with
+      | none => s!"ok {hexOrDash r.val} {r.p}"
+      | some e => s!"err:{e.name} {r.p}")
+  | "ReadString", [d] => do let d ← hexToBytes d; pure (fmtR (readString d) hexOrDash)
+  | "UnescapeStringContent", [d, b] => do
+    let d ← hexToBytes d; let b ← hexToBytes b
+    pure (fmtR (unescapeStringContent d b) hexOrDash)
+  | "DecodeBool", [d, t] => do let d ← hexToBytes d; pure (fmtDecode (decode readBool d (t == "true")) boolStr)
+  | "DecodeFloat64", [d, t] => do let d ← hexToBytes d; let t ← t.toNat?; pure (fmtDecode (decode readFloat64 d t) toString)
+  | "DecodeInt64", [d, t] => do let d ← hexToBytes d; let t ← parseInt? t; pure (fmtDecode (decode readInt64 d t) toString)
+  | "DecodeInt32", [d, t] => do let d ← hexToBytes d; let t ← parseInt? t; pure (fmtDecode (decode readInt32 d t) toString)
+  | "DecodeInt", [d, t] => do let d ← hexToBytes d; let t ← parseInt? t; pure (fmtDecode (decode readInt d t) toString)
+  | "DecodeUint64", [d, t] => do let d ← hexToBytes d; let t ← t.toNat?; pure (fmtDecode (decode readUint64 d (UInt64.ofNat t)) (fun v => toString v.toNat))
+  | "DecodeUint32", [d, t] => do let d ← hexToBytes d; let t ← t.toNat?; pure (fmtDecode (decode readUint32 d (UInt64.ofNat t)) (fun v => toString v.toNat))
+  | "DecodeUint", [d, t] => do let d ← hexToBytes d; let t ← t.toNat?; pure (fmtDecode (decode readUint d (UInt64.ofNat t)) (fun v => toString v.toNat))
+  | "DecodeString", [d, t] => do let d ← hexToBytes d; let t ← hexToBytes t; pure (fmtDecode (decode readString d t) hexOrDash)
+  | "StdString", [s] => do let s ← hexToBytes s; pure (hexOrDash (stdLibCompatibleString s))
+  | "StdBytes", [s, b] => do let s ← hexToBytes s; let b ← hexToBytes b; pure (hexOrDash (stdLibCompatibleStringBytes s b))
+  | "ReadValue", [d] => do let d ← hexToBytes d; pure (fmtR (readValue d) JVal.render)
+  | "ReadObject", [d] => do let d ← hexToBytes d; pure (fmtR (readObject d) JVal.render)
+  | "ReadArray", [d] => do let d ← hexToBytes d; pure (fmtR (readArray d) JVal.render)
+  | "FloatPath", [d] => do let d ← hexToBytes d; pure (FP.parse d).path.name
+  | "fpReadFloat", [d] => do
+    let d ← hexToBytes d
+    let r := FP.readFloat d
+    pure s!"{r.mantissa} {r.exp} {boolStr r.neg} {boolStr r.trunc} {r.p} {boolStr r.ok}"
+  | "fpExact", [m, e, n] => do
+    let m ← m.toNat?; let e ← parseInt? e
+    pure (match FP.atof64exact m e (n == "true") with | some b => s!"some {b}" | none => "none")
+  | "fpEL", [m, e, n] => do
+    let m ← m.toNat?; let e ← parseInt? e
+    pure (match FP.eiselLemire64 m e (n == "true") with | some b => s!"some {b}" | none => "none")
+  | "fpDecimal", [d] => do
+    let d ← hexToBytes d
+    pure (match FP.Decimal.set d with
+      | none => "fail"
+      | some a => match a.floatBits with
+        | none => "panic"
+        | some (b, ovf) => s!"{b} {boolStr ovf}")
+  | "specRound", [neg, m, e] => do
+    let m ← m.toNat?; let e ← parseInt? e
+    let (b, ovf) := Spec.roundDec (neg == "true") m e
+    pure s!"{b} {boolStr ovf}"
+  | _, _ => none
+
+/-! Spec-level operations (property oracles) -/
+
+def lhex (l : List UInt8) : String := hexOrDash l.toArray
+
+partial def specRender : Spec.JVal → String
+  | .null => "n"
+  | .bool b => if b then "t" else "f"
+  | .num bits => "d" ++ toString bits
+  | .str s => "s" ++ lhex s
+  | .arr xs => "[" ++ ",".intercalate (xs.map specRender) ++ "]"
+  | .obj kvs =>
+    -- last duplicate wins, then sort bytewise
+    let m : Array (Bytes × Spec.JVal) := kvs.foldl (fun acc (k, v) =>
+      let k := k.toArray
+      match acc.findIdx? (fun kv => kv.1 == k) with
+      | some i => acc.set! i (k, v)
+      | none => acc.push (k, v)) #[]
+    let sorted := m.qsort (fun a b => Model.bytesLt a.1 b.1)
+    "{" ++ ",".intercalate (sorted.toList.map (fun (k, v) => hexOrDash k ++ ":" ++ specRender v)) ++ "}"
+
+/-- the fixed JSON token table of the property statement (independent of the code's table) -/
+def specTokenType (b : UInt8) : Nat :=
+  if b == 110 then 1 else if b == 34 then 2 else if b == 45 || isDigit b then 3
+  else if b == 116 then 4 else if b == 102 then 5 else if b == 123 then 6 else if b == 125 then 7
+  else if b == 91 then 8 else if b == 93 then 9 else if b == 44 then 10 else if b == 58 then 11 else 0
+
+def membersStr (ms : List Spec.Member) : String :=
+  ";".intercalate (ms.map (fun m => lhex m.field ++ "@" ++ toString m.off))
+
+def specOp (op : String) (args : List String) : Option String :=
+  match op, args with
+  | "specString", [d] => do
+    let d ← hexToBytes d
+    pure (match Spec.readString d.toList with | some (c, e) => s!"ok {lhex c} {e}" | none => "err")
+  | "specUnescape", [d] => do
+    let d ← hexToBytes d
+    let body := d.toList
+    pure (match Spec.scanStringBody (body ++ [34]) with
+      | some [] => s!"ok {lhex (Spec.decodeString (body.length + 1) body)} {body.length}"
+      | _ => "err")
+  | "specInt", [lo, hi, sg, d] => do
+    let d ← hexToBytes d; let lo ← parseInt? lo; let hi ← parseInt? hi
+    pure (match Spec.readInt lo hi (sg == "true") d.toList with | some (v, e) => s!"ok {v} {e}" | none => "err")
+  | "specFloat", [d] => do
+    let d ← hexToBytes d
+    pure (match Spec.readFloat d.toList with | some (b, e) => s!"ok {b} {e}" | none => "err")
+  | "specArr", [d] => do
+    let d ← hexToBytes d
+    pure (match Spec.traverseArray d.toList with | some (ms, e) => s!"ok {e} {membersStr ms}" | none => "err")
+  | "specObj", [d] => do
+    let d ← hexToBytes d
+    pure (match Spec.traverseObject d.toList with | some (ms, e) => s!"ok {e} {membersStr ms}" | none => "err")
+  | "specTree", [lim, d] => do
+    let d ← hexToBytes d; let lim ← lim.toNat?
+    pure (match Spec.readValue lim d.toList with | some (v, e) => s!"ok {specRender v} {e}" | none => "err")
+  | "specSanitize", [d] => do let d ← hexToBytes d; pure (lhex (Spec.sanitizeAll d.toList))
+  | "specLit", [which, d] => do
+    let d ← hexToBytes d
+    let lit : List UInt8 := if which == "null" then [110,117,108,108] else if which == "true" then [116,114,117,101] else [102,97,108,115,101]
+    pure (match Spec.scanLit lit (Spec.skipWs d.toList) with | some r => s!"ok {d.size - r.length}" | none => "err")
+  | "specToken", [d] => do
+    let d ← hexToBytes d
+    pure (match Spec.skipWs d.toList with
+      | [] => s!"eof"
+      | b :: rest => s!"tok {b.toNat} {specTokenType b} {d.size - rest.length}")
+  | _, _ => none
 
 def runLine (line : String) : String :=
   match line.splitOn " " with
@@ -111,6 +282,7 @@ def runLine (line : String) : String :=
     match hexToBytes data, lim.toNat? with
     | some d, some l => toString (Spec.validDoc l d.toList)
     | _, _ => "bad-op"
-  | _ => "bad-op"
+  | op :: args => ((apiOp op args).orElse (fun _ => specOp op args)).getD "bad-op"
+  | [] => "bad-op"
 
 end RJson.Driver
